@@ -22,6 +22,13 @@ CHECKS = {
         note="Trusted: TLC; scipy.ndimage.label's raster numbering (affects order only); exact-rational projection; pde grid metric. Winding components: only volume/cells are judged (position unspecified by the property). Cylindrical clause: see evidence (LocateCyl) when built.",
         ref="§3 C02",
     ),
+    "C03": dict(
+        level="model_checking",
+        technique="TLA+ spec Render.tla (exact squared min-image distance field of lattice droplets; Inside as strict sub-level set; translation/roll, period, monotonicity, union laws) model-checked by TLC over every lattice droplet; spec->code replay cell by cell for SphericalDroplet/DiffuseDroplet; independent numeric oracle (associated Legendre series) for perturbed classes and symmetric grids",
+        text="TLC enumerates every droplet with centre on the (sub-)cell lattice within a margin of up to more than a period around 1-D/2-D/3-D Cartesian boxes of all periodicity masks (on cell centres, on faces, outside the box) and squared radii from 0 to beyond the box, and checks RollEquivariant (every shift, every cell of the distance field), PeriodInvariant, Monotone, OrderFree, NoWrapOpenAxes. Each is rendered by the real code as SphericalDroplet and DiffuseDroplet with width None / 0 / positive and two (vmin, vmax) pairs (incl. negative and reversed): finite, within range, exact indicator when sharp, '> midpoint iff Q < r2' for every cell incl. cells exactly on the interface, non-increasing in the spec's exact Q, translation by whole cells equals np.roll, emulsion field = clipped sum = indicator of the union when sharp, independent of order. 1600 (thorough 32000) random perturbed 2-D/3-D/axisymmetric droplets (also exactly on cell centres, on periodic grids, on cylindrical grids) and diffuse droplets on polar/spherical/cylindrical grids are compared with an independent evaluation of the documented shape series.",
+        note="Trusted: TLC; numpy/scipy lpmv for the oracle. The general-direction inside/outside decision of perturbed shapes is a numeric comparison (cells within 1e-9 of the interface skipped), not model checking. Found and repaired F3 (NaN for a 3-D perturbed droplet on a cell centre) and F4 (axisymmetric droplets could not be rendered).",
+        ref="§3 C03",
+    ),
     "C06": dict(
         level="model_checking",
         technique="TLA+ spec Tracking.tla model-checked by TLC (exhaustive lattice histories) + spec->code replay + code->spec trace validation (TraceTracking.tla)",
@@ -70,6 +77,13 @@ CHECKS = {
         text="TLC checks TypeOK, OrderPreserved, PrefixAlways, Deterministic, OnceEach, OutGrows and Termination for N<=6 tasks on W<=4 workers with sets of None results, over every interleaving. Each complete schedule (completion order) found by TLC is forced in a real process pool by gating task completion on marker files; locate_droplets(refine=True, num_processes=W|'auto') on fields with N droplets (plain, diffuse, perturbed candidates, periodic/non-periodic, a droplet cut by the boundary, forced None results) and EmulsionTimeCourse.from_storage(num_processes=W, progress=None|True|False, refine on/off) on N distinct frames must return results bit-identical (data bytes, dtype, class, order, times) to the serial run; serial runs are repeated and must be identical. The recorded start/end logs are accepted by TraceParallel.tla only if they are behaviours of the spec and the caller's output is the spec's.",
         note="Trusted: TLC, fork start method (wrappers inherited by workers), FIFO call queue of the executor. Runs whose recorded completion order is not the intended one are not judged (count in evidence). Exhaustive in schedules for the stated (N, W); inputs are a fixed family of scenarios.",
         ref="§3 C15",
+    ),
+    "C18": dict(
+        level="model_checking",
+        technique="TLA+ spec Threshold.tla (threshold rules, Otsu's between-class variance over bin centres with the set of acceptable outcomes, strict binarisation, runs of open and periodic rows, strict size filter, all in exact integer arithmetic) model-checked by TLC over every integer image of small rows; spec->code replay through threshold_otsu / locate_droplets vs locate_droplets_in_mask of the spec's masks; brute-force Otsu oracle on random fields",
+        text="TLC enumerates every image over {0,64,..,256} on 5-6 cells (256 bins) and over 0..8 on 4-6 cells (2, 4, 8 bins) and checks AffineInvariant (a in {1,2,4}, b in {-16,0,16}, numeric thresholds mapped), StrictThreshold, OtsuSplits, FilterStrict, PeriodicRuns. Every image is replayed: threshold_otsu(data, nbins) must be the centre of a bin of an optimal plateau and cut the cells as the spec says; locate_droplets(field, rule) for 'extrema', 'auto', 'mean', 'otsu' and numeric thresholds on and between values must be bit-identical to locate_droplets_in_mask(spec mask) on open and periodic rows, 2-D reshapes, polar, spherical and cylindrical grids; exactly representable affine maps must leave the droplets bit-identical; minimal radii on and off the exact run radii must keep exactly the spec's runs (also across the periodic seam). Random large fields (skewed, bimodal, exponential; four grid families) are judged against a brute-force evaluation of Otsu's objective and against data > threshold.",
+        note="Trusted: TLC; locate_droplets_in_mask as the meaning of 'droplets of a binary image' (that stage is C02). Constant images are not judged under Otsu. Lattice alphabets are chosen so that histogram bin edges are exact.",
+        ref="§3 C18",
     ),
     "C19": dict(
         level="model_checking",
